@@ -1,0 +1,39 @@
+//go:build verif
+
+package aof
+
+// Machine-checked contracts for the gowp verifier (/verif). Comment-only; compiled only under the
+// build tag "verif"; declares nothing.
+//
+// The engine ties the preamble store and the append store together. The ghost file model ($fcontent, $fdurable) and the
+// contracts of the two stores are in internal/aof/log and internal/aof/preamble.
+
+// The rewrite callbacks the server installs (state-copy flags) do not touch the files.
+//@ fieldspec aof.Engine.startRewriteFunc props C09
+//@   modifies nothing
+//@ fieldspec aof.Engine.finishRewriteFunc props C09
+//@   modifies nothing
+
+// LogCommand hands exactly its database and command to the append store.
+//@ func (*Engine).LogCommand props C02,C20
+//@   requires engine.appendStore != nil
+//@   assert @Write#0 {C02,C20} passes-on: arg1 == database && arg2 == command
+//@   modifies *
+
+// RewriteLog writes the new preamble first and truncates the log only once that preamble is durable; on success the preamble
+// holds the marshalled state and the log only the marker of its current database. (A crash between the two steps leaves the
+// new preamble with the old log: that window is not closed by the code and is not decided here.)
+//@ func (*Engine).RewriteLog props C09,C02
+//@   requires engine.preambleStore != nil && engine.appendStore != nil && engine.preambleStore.rw != nil && engine.appendStore.rw != nil && engine.preambleStore.clock != nil
+//@   requires {C05} nolocks()
+//@   assumes files: ref(engine.preambleStore.rw) != ref(engine.appendStore.rw) && !$fappend[ref(engine.preambleStore.rw)]
+//@   assert @Truncate#0 {C09} preamble-first: $fdurable[ref(engine.preambleStore.rw)] == $lastjson && $fcontent[ref(engine.preambleStore.rw)] == $lastjson
+//@   ensures {C09,C02} rewritten: result == nil ==> $fcontent[ref(engine.preambleStore.rw)] == $lastjson && $fdurable[ref(engine.preambleStore.rw)] == $lastjson && $fcontent[ref(engine.appendStore.rw)] == log.selectrec(engine.appendStore.currentDatabase) && $fdurable[ref(engine.appendStore.rw)] == $fcontent[ref(engine.appendStore.rw)]
+//@   ensures {C05} released: nolocks()
+//@   ensures {C09} failed-preamble-keeps-log: result != nil && calls(Truncate) == old(calls(Truncate)) ==> $fcontent[ref(engine.appendStore.rw)] == old($fcontent[ref(engine.appendStore.rw)])
+//@   modifies *
+
+// Restore replays the preamble before the log.
+//@ func (*Engine).Restore props C02,C09
+//@   requires engine.preambleStore != nil && engine.appendStore != nil
+//@   modifies *
